@@ -54,9 +54,14 @@ Definition is_one_frame (fr : bytes) : bool :=
   | Some n => (n =? N.of_nat (length fr)) && (last fr 0 =? frame_end)
   | None => false
   end.
+(* the Close must be a well-formed method: class 10, method 50, reply code, reply text as a
+   short string (one length byte, then exactly that many bytes), class id and method id
+   (two bytes each), the frame end - and nothing else: a text of more than 255 bytes cannot
+   be carried, its length byte wraps and the frame is garbage to the server *)
 Definition close_code_of (fr : bytes) : option N :=
   match fr with
-  | 1 :: 0 :: 0 :: _ :: _ :: _ :: _ :: 0 :: 10 :: 0 :: 50 :: hi :: lo :: _ => Some (hi * 256 + lo)
+  | 1 :: 0 :: 0 :: _ :: _ :: _ :: _ :: 0 :: 10 :: 0 :: 50 :: hi :: lo :: tl :: rest =>
+      if N.of_nat (length rest) =? tl + 5 then Some (hi * 256 + lo) else None
   | _ => None
   end.
 
